@@ -199,9 +199,9 @@ class SO3(SMPose):
         :SymPy: not supported
         """
         if len(self) == 1:
-            return base.tr2eul(self.A, unit=unit)
+            return base.tr2eul(self.A, unit=unit, flip=flip)
         else:
-            return np.array([base.tr2eul(x, unit=unit) for x in self.A]).T
+            return np.array([base.tr2eul(x, unit=unit, flip=flip) for x in self.A]).T
 
     def rpy(self, unit='rad', order='zyx'):
         """
